@@ -379,6 +379,11 @@ func c15Classes(c c15Case) (classes []string) {
 	return
 }
 
+// c15Special are bytes and sequences that text handling elsewhere treats
+// specially and that a line reader must pass through untouched: white space,
+// NUL, DEL, Ctrl-Z, a byte order mark, other Unicode line separators.
+var c15Special = []string{" ", "\t", "\x00", "\x0b", "\x0c", "\x1a", "\x7f", "\xef\xbb\xbf", "\xc2\x85", "\xe2\x80\xa8", "\xc2\xa0"}
+
 var c15Alphabet = []string{"\n", "\r", "a", "b", "\xe4", "\xb8", "\xad", "\xff"}
 
 func TestC15(t *testing.T) {
@@ -401,7 +406,7 @@ func TestC15(t *testing.T) {
 				n = rapid.IntRange(400, 70000).Draw(rt, "nbig")
 			}
 			var sb strings.Builder
-			tok := rapid.SampledFrom([]string{"\n", "\n", "\r", "\r\n", "a", "b", "abc", "中", "\xe4", "\xb8\xad", "\xff", "aaaaaaaaaaaaaaaaaaaaaaaaaaaaaaaaaaaaaaaa"})
+			tok := rapid.SampledFrom(append([]string{"\n", "\n", "\n", "\r", "\r\n", "a", "b", "abc", "中", "\xe4", "\xb8\xad", "\xff", "aaaaaaaaaaaaaaaaaaaaaaaaaaaaaaaaaaaaaaaa"}, c15Special...))
 			for sb.Len() < n {
 				sb.WriteString(tok.Draw(rt, "tok"))
 			}
@@ -419,6 +424,14 @@ func TestC15(t *testing.T) {
 			cl := c15Classes(c)
 			for _, k := range cl {
 				st.Class("random:" + k)
+			}
+			for _, sp := range c15Special {
+				if strings.HasPrefix(string(c.Stream), sp) {
+					st.Class("random:stream-begins-with-a-special-sequence")
+				}
+				if strings.Contains(string(c.Stream), "\n"+sp+"\n") || strings.HasSuffix(string(c.Stream), "\n"+sp) {
+					st.Class("random:line-is-only-a-special-sequence")
+				}
 			}
 			if len(cl) > 0 {
 				b, _ := json.Marshal(c)
@@ -443,7 +456,7 @@ func TestC15(t *testing.T) {
 					m.Readers = append(m.Readers, sizes.Draw(rt, "size"))
 				}
 			}
-			piece := rapid.SampledFrom([]string{"tail", "AAAA", "BBBBBB", "c", " done\n", "\n", "x\r\n", "\r", "one\ntwo", "中", "\xe4", "\xb8\xad\n", "0123456789abcdef0123456789abcdef0123456789"})
+			piece := rapid.SampledFrom(append([]string{"tail", "AAAA", "BBBBBB", "c", " done\n", "\n", "\n", "x\r\n", "\r", "one\ntwo", "中", "\xe4", "\xb8\xad\n", "0123456789abcdef0123456789abcdef0123456789"}, c15Special...))
 			ns := rapid.IntRange(1, 24).Draw(rt, "steps")
 			flushes, partialAtFlush, interleaved := 0, false, false
 			open := map[int]string{} // unterminated bytes a reader is holding
